@@ -194,7 +194,9 @@ func closeValue(a, b any) bool {
 		return near(x, b.(float64))
 	case complex64:
 		y := b.(complex64)
-		f := func(p, q float32) bool { return near(float64(p), float64(q)) || math.Abs(float64(p)-float64(q)) <= 1e-6*math.Abs(float64(p)) }
+		f := func(p, q float32) bool {
+			return near(float64(p), float64(q)) || math.Abs(float64(p)-float64(q)) <= 1e-6*math.Abs(float64(p))
+		}
 		return f(real(x), real(y)) && f(imag(x), imag(y))
 	case complex128:
 		y := b.(complex128)
